@@ -33,6 +33,33 @@ type RendWrite struct{ S string }
 
 func (x RendWrite) Render(r *jet.Runtime) { r.Write([]byte(x.S)) }
 
+// RendChunks is a Renderer that hands its text over in pieces - each through Runtime.Write, the escaping
+// writer; with Raw set, a piece of markup goes to Runtime.Writer (the documented bypass) after every piece -
+// and that may fail (a panic with an error) after FailAfter pieces. Pieces may end in the middle of a
+// multi-byte character: what a Renderer has written is written, in the order it was written.
+type RendChunks struct {
+	Pieces    []string
+	Raw       bool
+	FailAfter int // < 0: never
+}
+
+const RendChunksRaw = "<i/>"
+
+func (x RendChunks) Render(r *jet.Runtime) {
+	for i, p := range x.Pieces {
+		if i == x.FailAfter {
+			panic(fmt.Errorf("renderer gave up after %d pieces", i))
+		}
+		r.Write([]byte(p))
+		if x.Raw {
+			r.Writer.Write([]byte(RendChunksRaw))
+		}
+	}
+	if x.FailAfter >= len(x.Pieces) {
+		panic(fmt.Errorf("renderer gave up after %d pieces", len(x.Pieces)))
+	}
+}
+
 type User struct {
 	Name   string
 	Age    int
@@ -108,6 +135,28 @@ func (r *PlainRanger) Range() (reflect.Value, reflect.Value, bool) {
 	return reflect.Value{}, v, false
 }
 func (r *PlainRanger) ProvidesIndex() bool { return false }
+
+// Sink is a send-only channel type with a method.
+type Sink chan<- string
+
+func (s Sink) String() string { return "sink" }
+
+// NilOKRanger is a custom Ranger whose pointer receiver is prepared for nil: a nil *NilOKRanger is a
+// Ranger without elements, not a nil pointer to look through.
+type NilOKRanger struct {
+	Items []string
+	i     int
+}
+
+func (r *NilOKRanger) Range() (reflect.Value, reflect.Value, bool) {
+	if r == nil || r.i >= len(r.Items) {
+		return reflect.Value{}, reflect.Value{}, true
+	}
+	v := reflect.ValueOf(r.Items[r.i])
+	r.i++
+	return reflect.Value{}, v, false
+}
+func (r *NilOKRanger) ProvidesIndex() bool { return false }
 
 // Emb has a field promoted through an embedded pointer, which may be nil.
 // interface-typed fields reached through an embedded pointer / an embedded struct of an unexported type
@@ -277,6 +326,8 @@ func Build(r Recipe) interface{} {
 		return m
 	case "renderer-write":
 		return RendWrite{S: r.S}
+	case "rend-chunks": // Ss: the pieces, B: raw markup after every piece, I: fails after that many pieces (< 0: never)
+		return RendChunks{Pieces: append([]string{}, r.Ss...), Raw: r.B, FailAfter: int(r.I)}
 	case "map[string]user": // every key holds the User of that name
 		m := map[string]User{}
 		for i, k := range r.Keys {
@@ -345,10 +396,29 @@ func Build(r Recipe) interface{} {
 		return struct{ F func(string) string }{}
 	case "arr4func": // the slice it is handed must have four elements to convert
 		return func(p *[4]int) int { return p[0] }
+	case "nilok-ranger": // without elements: the typed nil pointer itself
+		if len(r.Ss) == 0 {
+			return (*NilOKRanger)(nil)
+		}
+		return &NilOKRanger{Items: append([]string{}, r.Ss...)}
+	case "nilok-holder": // the typed nil pointer in a field of its own type and in one of type jet.Ranger
+		return struct {
+			P *NilOKRanger
+			R jet.Ranger
+		}{R: (*NilOKRanger)(nil)}
 	case "rangerholder": // a struct with a nil field of type jet.Ranger
 		return struct{ R jet.Ranger }{}
 	case "chan<- int":
 		return (chan<- int)(make(chan int, 1))
+	case "*chan<- int": // the same behind a pointer
+		c := (chan<- int)(make(chan int, 1))
+		return &c
+	case "sendonly-holder": // a send-only channel of a defined type in a slot of an interface type, and a pointer to one
+		c := Sink(make(chan string, 1))
+		return struct {
+			Sink  fmt.Stringer
+			PSink *Sink
+		}{Sink: c, PSink: &c}
 	case "map[any]int":
 		return map[interface{}]int{"a": 1}
 	case "nil*valrecv": // a nil pointer whose type has a method with a value receiver
